@@ -145,6 +145,15 @@ CHECKS = {
        "with flags, widths and precisions compared exactly. tonumber(tostring(n)) == n is checked as a law on a lattice supplied by the spec",
   note="bounded formats (<= 2-4 tokens) and strings; native sizes are measured and passed to the spec; the %q text itself, float directives and error messages are not compared; open findings C17-1..14",
   technique="TLA+ specs Pack.tla, Quote.tla, Printf.tla over Limbs.tla; TLC exhaustive enumeration with laws on the spec; tabular comparison with the real library; second TLC pass over observed %q texts (direction B)"),
+ "C20": dict(
+  level="model_checking", ref="5 C20",
+  text="Isolation.tla (N runtimes with private state only, so non-interference holds for every interleaving by construction) is used by TLC to enumerate all schedules of the "
+       "statement segments of 2-3 programs; each schedule is replayed on real Runtime values living in one process (one goroutine each, gated so that exactly one advances), for "
+       "program tuples built from a menu of statements on every per-runtime root (globals, library tables, string metatable, random generator incl. seed-then-draw across "
+       "segments, quotas, errors, coroutines, finalisers, package.loaded); every runtime's events must equal its solo run. The same programs also run freely in parallel on 4 "
+       "goroutines with a race-detector build (GOMAXPROCS 2 and 8): a race report with golua frames or a deviation from the solo run is a violation",
+  note="the race detector only sees races the executions expose (an observation supporting the verdict); the process-wide Go GC setting (collectgarbage stop/restart) is not exercised",
+  technique="TLA+ spec Isolation.tla, TLC enumeration of interleavings, schedules replayed on real runtimes with gated goroutines (direction A) + race-detector runs"),
 }
 NOT_YET = {}
 
